@@ -557,7 +557,7 @@ impl AuthenticationProtocol  for Ntlm {
             target_info[&AvId::MsvAvTimestamp].clone()
         }
         else {
-            panic!("no timestamp available")
+            return Err(Error::RdpError(RdpError::new(RdpErrorKind::InvalidData, "NTLM: no timestamp available in target info")))
         };
 
         // generate client challenge
